@@ -54,7 +54,7 @@ theorem class_table_as_modelled :
       ∧ (c.guarded = m.guarded
           -- the prepared switch: BeamCXPEC with the complete guard is modelled by `beamCXGuarded true`
           ∨ (m.shape = Shape.beamCX ∧ c.guarded = ["energy", "temperature", "density"]))
-      ∧ c.extrap = m.extrap ∧ (c.photon != []) = m.photon := by decide
+      ∧ c.extrap.map (·.2) = m.extrap.map (·.2) ∧ (c.photon != []) = m.photon := by decide
 
 /-- every rate class returned by an accessor is modelled -/
 theorem rate_classes_modelled : ∀ a ∈ accessors, a.rateClass ∈ modelled.map (·.name) := by decide
